@@ -1,10 +1,10 @@
 (* C07 — the offsets file is always a loadable snapshot, never ahead of commits.
    Only statements, each closed by [exact]; proofs live in Proofs/OffsetsFmt.v, Proofs/FsCrash.v,
-   Proofs/OffsetsSnap.v.  [filed_save_protocol] / [generic_save_protocol] are GENERATED from the Go source
+   Proofs/OffsetsSnap.v, Proofs/OffsetsProv.v.  [filed_save_protocol] / [generic_save_protocol] are GENERATED from the Go source
    (Gen/SaveProtocol.v): if offsetDB.save or offset.Save stops syncing before the rename, or renames after
    a failed write/fsync, [eq_refl] below no longer type-checks. *)
-From Verif Require Import Base.Sx Base.GoSem Model.OffsetsFmt Model.FsCrash Model.OffsetsSnap Gen.SaveProtocol
-  Proofs.OffsetsFmt Proofs.FsCrash Proofs.OffsetsSnap.
+From Verif Require Import Base.Sx Base.GoSem Model.OffsetsFmt Model.FsCrash Model.OffsetsSnap Model.OffsetsProv Gen.SaveProtocol
+  Proofs.OffsetsFmt Proofs.FsCrash Proofs.OffsetsSnap Proofs.OffsetsProv.
 From Coq Require Import Lia.
 
 (* ---- format: the parser loads back exactly what the writer printed --------------------------------
@@ -204,6 +204,67 @@ Theorem c07_overlapping_saves_refuted :
 Proof. exact file_complete_refuted_when_mu_released. Qed.
 Print Assumptions c07_overlapping_saves_refuted.
 
+(* ---- the provider around the file (Model/OffsetsProv.v): histories of commit / save / truncation / done / maintenance /
+   restart on one jobProvider, persistence mode async or sync, offsets_op continue / tail / reset -----------------------
+   in every state of every history the offsets file loads back to the complete snapshot of the job table of that state
+   or of a state before it (never a later one, never a mixture) *)
+Theorem c07_provider_file_is_earlier_snapshot :
+  forall cfg fs ops pre st post,
+    pstates cfg (pinit cfg fs) ops = pre ++ st :: post ->
+    exists st', In st' (pre ++ [st]) /\ p_file st = snap (p_jobs st').
+Proof. exact prov_file_is_earlier_snapshot. Qed.
+Print Assumptions c07_provider_file_is_earlier_snapshot.
+
+(* the list the executable predicate of stream family 'provider-history' searches (snapshot of the current table and of
+   every earlier one) contains the model's file after every operation *)
+Theorem c07_provider_file_in_history :
+  forall cfg fs ops,
+    Forall (fun zs => In (p_file (snd zs)) (snap (p_jobs (snd zs)) :: p_hist (snd zs))) (prun cfg (pinit cfg fs) ops).
+Proof. exact prov_file_in_history. Qed.
+Print Assumptions c07_provider_file_in_history.
+
+(* what must not count does not count: an event of an unknown source, of a kind other than regular / childParent, or
+   numbered at or below the truncation mark leaves table and file as they are, in both persistence modes *)
+Theorem c07_provider_ignored_commit :
+  forall cfg st fi kind seq s off,
+    (find_job (p_jobs st) fi = None \/
+     commits_kind kind = false \/
+     exists j, find_job (p_jobs st) fi = Some j /\ seq <= pj_ign j) ->
+    pstep cfg st (PCommit fi kind seq s off) = (0, st).
+Proof. exact prov_ignored_commit. Qed.
+Print Assumptions c07_provider_ignored_commit.
+
+(* an offset is stored only strictly above the stored one; otherwise commit panics and nothing changes *)
+Theorem c07_provider_commit_not_above :
+  forall cfg st fi kind seq s off j,
+    find_job (p_jobs st) fi = Some j -> commits_kind kind = true -> pj_ign j < seq -> off <= sget (pj_offs j) s ->
+    pstep cfg st (PCommit fi kind seq s off) = (7, st).
+Proof. exact prov_commit_not_above. Qed.
+Print Assumptions c07_provider_commit_not_above.
+
+(* stop + start with offsets_op continue: every job that had offsets and whose file is still there is back with exactly
+   its offsets and EOF time, no new job holds anything else, and the file is the snapshot stop() took *)
+Theorem c07_provider_restart_restores :
+  forall cfg st,
+    pc_op0 cfg = 0 -> NoDup (map pj_id (p_jobs st)) ->
+    let st' := snd (pstep cfg st (PRestart false)) in
+    (forall j f, In j (p_jobs st) -> nonempty (pj_offs j) = true ->
+                 In f (p_files st) -> pf_id f = pj_id j -> pf_disk f = true ->
+                 exists j', In j' (p_jobs st') /\ pj_id j' = pj_id j /\ pj_offs j' = pj_offs j /\ pj_ts j' = pj_ts j) /\
+    (forall j', In j' (p_jobs st') ->
+                pj_offs j' = [] \/
+                exists j, In j (p_jobs st) /\ pj_id j = pj_id j' /\ pj_offs j' = pj_offs j /\ pj_ts j' = pj_ts j) /\
+    p_file st' = snap (p_jobs st).
+Proof. exact prov_restart_restores. Qed.
+Print Assumptions c07_provider_restart_restores.
+
+Theorem c07_provider_restart_without_continue :
+  forall cfg st crash,
+    pc_op0 cfg <> 0 ->
+    forall j', In j' (p_jobs (snd (pstep cfg st (PRestart crash)))) -> pj_offs j' = [].
+Proof. exact prov_restart_without_continue. Qed.
+Print Assumptions c07_provider_restart_without_continue.
+
 (* ---- non-vacuity ------------------------------------------------------------------------------------ *)
 (* a table with the stream names "", ":", "a: 5", "- file: x", "  streams:", a non-ASCII one, offsets 0 and
    2^63-1, a negative timestamp, a file name with blanks and ':' — it is well-formed and round-trips *)
@@ -260,4 +321,20 @@ Example c07_recovery_nonvacuous :
   kill_dir (Some [9%N]) (crash_state filed_save_protocol [1%N; 2%N] CBeforeRename) = {| dcur := Some [9%N]; dtmp := Some [1%N; 2%N] |} /\
   load_dir (@Some bytes) None {| dcur := None; dtmp := Some [1%N] |} = None /\
   load_dir_fallback (@Some bytes) None {| dcur := None; dtmp := Some [1%N] |} = Some [1%N].
+Proof. vm_compute. repeat split; reflexivity. Qed.
+
+(* a provider history: a commit, two that do not count (timeout kind, unknown source), one at the stored offset
+   (panic), a save; the worker reads on, the file is cut below its position -> offsets 0, the event numbered at the
+   mark is ignored, the next one counts; stop + start restores exactly the saved table *)
+Example c07_provider_nonvacuous :
+  let cfg := {| pc_sync := false; pc_op0 := 0 |} in
+  let fs := [{| pf_id := 0%N; pf_name := [97%N]; pf_size := 100; pf_disk := true |}] in
+  let ops := [PCommit 0 0 1 [115%N] 50; PCommit 0 2 2 [115%N] 60; PCommit 7 0 3 [115%N] 70; PCommit 0 0 4 [115%N] 50; PSave;
+              PProgress 0 80 5; PTrunc 0 20; PCommit 0 0 5 [115%N] 5; PCommit 0 0 6 [115%N] 7; PRestart false] in
+  map fst (prun cfg (pinit cfg fs) ops) = [0; 0; 0; 7; 0; 0; 0; 0; 0; 0] /\
+  map (fun zs => map estreams (p_file (snd zs))) (prun cfg (pinit cfg fs) ops) =
+    [[]; []; []; []; [[([115%N], 50)]]; [[([115%N], 50)]]; [[([115%N], 50)]]; [[([115%N], 50)]]; [[([115%N], 50)]]; [[([115%N], 7)]]] /\
+  map (fun zs => map pj_offs (p_jobs (snd zs))) (prun cfg (pinit cfg fs) ops) =
+    [[[([115%N], 50)]]; [[([115%N], 50)]]; [[([115%N], 50)]]; [[([115%N], 50)]]; [[([115%N], 50)]]; [[([115%N], 50)]];
+     [[([115%N], 0)]]; [[([115%N], 0)]]; [[([115%N], 7)]]; [[([115%N], 7)]]].
 Proof. vm_compute. repeat split; reflexivity. Qed.
